@@ -1077,7 +1077,9 @@ def mon_C14(walk, d):
                 # independent of the engine's own deadline: a PINGREQ of THIS connection must be outstanding (written and
                 # not answered since, or at least queued) - a deadline carried over from an earlier connection does not count
                 c = conn_at(d, i)
-                if c is not None:
+                # (not judged once the server has injected garbage on this connection: the inbound stream may be desynchronised and
+                # the bytes of a later PINGRESP swallowed as the body of a bogus packet - the peer is not a live, conformant one)
+                if c is not None and not (getattr(c, "taint_step", None) is not None and c.taint_step <= i):
                     reqs = [p["first_step"] for p in c.packets if p["kind"] == "pingreq" and p["first_step"] <= i]
                     resps = [j for j in range(c.open_step, i) if walk.notes[j].get("ack", {}).get("kind") == "pingresp"
                              and resp_fields(walk.out[j])[0].get("res") == "ok"]
@@ -1121,7 +1123,7 @@ def snap_state(line):
     return dict(state=f["state"], ops=ops, opids=lst("ops"), userq=lst("userq"), resubq=lst("resubq"), highq=lst("highq"),
                 cur=None if f.get("cur") in (None, "none") else int(f["cur"]), alloc=mp("alloc"), ppub=mp("ppub"), pnon=mp("pnon"),
                 pwc=lst("pwcops"), timeouts=f.get("timeouts", ""), nextop=int(f.get("nextop", "0")), nextpid=int(f.get("nextpid", "1")),
-                rm=int(f["s.rm"]) if "s.rm" in f else None, slow=int(f.get("slow", "0")))
+                rm=int(f["s.rm"]) if "s.rm" in f else None, slow=int(f.get("slow", "0")), pending_write=f.get("pwc", "1") == "1")
 
 
 def needs_id(kind):
@@ -1168,6 +1170,25 @@ def snapshot_violations(s):
                 out.append(("H2.high-publish-has-pubrel", f"publish {i} is in the high-priority queue without a PUBREL"))
             if ops[i]["pubrel"] and i not in ppub_vals:
                 out.append(("PR2.high-pubrel-pending", f"PUBREL of operation {i} is queued although the operation is not pending"))
+    # second layer (Proofs/EngineExcl.lean): every operation waits in one place
+    both = s["userq"] + s["resubq"]
+    if len(set(both)) != len(both):
+        out.append(("X5.queues-duplicate-free", f"an operation waits twice in the user / resubmit queues: {both}"))
+    if len(set(s["highq"])) != len(s["highq"]):
+        out.append(("X7.high-once", f"an operation is queued twice in the high-priority queue: {s['highq']}"))
+    if len(set(s["pwc"])) != len(s["pwc"]):
+        out.append(("X9.unflushed-once", f"an operation is listed twice as written-but-unflushed: {s['pwc']}"))
+    for i in both:
+        if i in s["highq"]:
+            out.append(("X5.queues-disjoint", f"operation {i} waits in the high-priority queue and in the user / resubmit queue"))
+        if i in s["pwc"] or i in ppub_vals or i in pnon_vals:
+            out.append(("X2.queued-not-filed", f"operation {i} is queued and at the same time unflushed / awaiting its acknowledgement"))
+        if s["cur"] == i:
+            out.append(("X4.current-not-queued", f"operation {i} is being written and still queued"))
+    # written-but-unflushed operations are completed by the write completion of the buffer that carried their last byte: there
+    # must be one to come (the signature of a packet left 'being written' after its last byte)
+    if s["pwc"] and not s.get("pending_write", True):
+        out.append(("PWC.unflushed-needs-pending-write", f"operations {s['pwc']} wait for a write completion although no write is pending"))
     if s["state"] == "Disconnected":
         if s["cur"] is not None or s["highq"] or s["ppub"] or s["pnon"] or s["pwc"] or s["timeouts"]:
             out.append(("D1.disconnected-clean", "Disconnected with a current operation, high-priority work, pending tables or timeouts left"))
